@@ -2001,6 +2001,23 @@ func leadingOr(shape []bool) bool {
 	return false
 }
 
+// rawJoinsFrom recognises the known class `raw-joins-from-trim`: a chain that
+// carries a Clauses(From{Joins}) clause, raw SQL (Raw) and at least one Joins call.
+// Its query is not built (the SQL is given), yet AfterQuery trims len(Statement.Joins)
+// joins off the FROM clause: the trimmed slice still points into the array of the
+// clause value the handle holds, and the next query of the continued chain appends
+// its join over the handle's element.
+func rawJoinsFrom(cs []int) bool {
+	var raw, joins, from bool
+	for _, c := range cs {
+		d := def(c)
+		raw = raw || d.fam == "raw"
+		from = from || d.fam == "cfrom"
+		joins = joins || d.merge == "JOINS"
+	}
+	return raw && joins && from
+}
+
 func namesTable(cs []int) bool {
 	for _, c := range cs {
 		if f := def(c).fam; f == "model" || f == "table" || strings.HasPrefix(f, "arg-table") {
@@ -2012,7 +2029,9 @@ func namesTable(cs []int) bool {
 
 func holdsModel(cs []int) bool {
 	for _, c := range cs {
-		if def(c).fam == "model" {
+		// a finisher in the middle of a chain leaves Model = its destination (Execute
+		// sets Statement.Model = Dest when no Model was given): the chain holds a model afterwards
+		if f := def(c).fam; f == "model" || f == "mid-finisher" {
 			return true
 		}
 	}
@@ -2261,6 +2280,12 @@ func genHistory(rt *rapid.T) History {
 			fin := drawFin(chainBase(handleByID(live[ci].from), live[ci].calls), live[ci].calls)
 			// one finish in four of a suitable kind is not the end: the chain continues on the returned value
 			cont := fin < argBase && midKinds[fins[fin].kind] && !fins[fin].write && rapid.IntRange(0, 3).Draw(rt, "continue") == 0
+			if cont && harness.OpenClass("C06", "raw-joins-from-trim") &&
+				rawJoinsFrom(append(append([]int(nil), chainBase(handleByID(live[ci].from), live[ci].calls)...), live[ci].calls...)) {
+				// listed finding: continuing such a chain overwrites the FROM joins of its handle
+				evid.Excluded("raw-joins-from-trim")
+				cont = false
+			}
 			h.Actions = append(h.Actions, Action{Kind: k, C: live[ci].id, Fin: fin, Cont: cont})
 			finishedAt = append(finishedAt, len(h.Actions)-1)
 			if cont {
@@ -2464,4 +2489,49 @@ func batchLimit(batch int) error {
 		return errors.New("harness: FindInBatches stopped after 12 batches")
 	}
 	return nil
+}
+
+// A handle that holds Clauses(From{Joins: [f1]}); a chain from it with raw SQL and a
+// Joins call is executed and then continued with another query on the returned value:
+// AfterQuery trims the FROM joins although none was added (raw SQL is not built), the
+// trimmed slice shares the array of the handle's clause, and the continued query
+// appends its join over the handle's own join. Later chains of the handle join
+// `companies Company` instead of `companies f1`.
+func TestC06WitnessRawJoinsFromTrim(t *testing.T) {
+	stmts := func(disturb bool) string {
+		e := newEnv(0)
+		defer e.close()
+		h := e.lite.DB.Clauses(clause.From{Joins: xs(clause.Join{Type: clause.LeftJoin, Table: clause.Table{Name: "companies", Alias: "f1"},
+			ON: clause.Where{Exprs: xs[clause.Expression](clause.Expr{SQL: "f1.id = users.company_id"})}})}).Session(&gorm.Session{})
+		if disturb {
+			var u User
+			var n int64
+			tx := h.Raw("SELECT * FROM users WHERE id = ?", 1).Joins("Company").Find(&u)
+			tx.Model(&User{}).Count(&n) // the chain continues on the value the finisher returned
+		}
+		e.lite.Rec.Reset()
+		var us []User
+		if err := h.Find(&us).Error; err != nil {
+			t.Fatalf("harness: %v", err)
+		}
+		var sb strings.Builder
+		for _, ev := range e.lite.Rec.Statements() {
+			sb.WriteString(ev.Text + "; ")
+		}
+		return sb.String()
+	}
+	alone, got := stmts(false), stmts(true)
+	if got != alone {
+		t.Errorf("C06 violated: h := db.Clauses(clause.From{Joins: [LEFT JOIN companies f1 …]}).Session(&gorm.Session{}); after tx := h.Raw(sql).Joins(\"Company\").Find(&u); tx.Model(&User{}).Count(&n), h.Find(&users) sends\n  %s\nalone it sends\n  %s", got, alone)
+	}
+	hist := History{Mode: "tx", Actions: []Action{
+		{Kind: "derive", H: 0, Calls: []int{idx(`Clauses(From{users JOIN companies f1})`)}, How: howIndex["Session{}"], New: 1},
+		{Kind: "start", H: 1, Calls: []int{idx(`Raw("SELECT * FROM users WHERE age > ?",30)`), idx(`Joins("Company")`)}, New: 1},
+		{Kind: "finish", C: 1, Fin: finIndex[`Find(&User)`], Cont: true},
+		{Kind: "finish", C: 1, Fin: finIndex[`Model(&User{}).Count`]},
+		{Kind: "direct", H: 1, Fin: finIndex[`Find(&[]User)`]},
+	}}
+	if v := run(hist); v != "" {
+		t.Errorf("C06 violated: %s\n  case: %s", v, hist)
+	}
 }
